@@ -307,7 +307,7 @@ func augFmtHelpers(c *Ctx, a *flAgg, popFmt, popName *ssa.Function) {
 					}
 				case strings.HasSuffix(s, ".IsOffsetTooLarge"):
 					tooLarge, haveTL = lt.Pol, true
-				case strings.HasPrefix(s, "(len(") && strings.HasSuffix(s, ".Name) == 0)"):
+				case strings.HasPrefix(s, "(len(") && strings.HasSuffix(s, ".Name) == 0)"), strings.HasSuffix(s, ".Name == \"\")"):
 					named, haveNamed = !lt.Pol, true
 				default:
 					okAll, why = false, "unexpected condition "+s
@@ -560,10 +560,21 @@ func augName(c *Ctx, a *flAgg) {
 	}
 	l := loops[0]
 	seg := &SPE{Fn: fn, Start: l.Header, MaxVisits: 2}
-	seg.Stop = func(from, to *ssa.BasicBlock) bool { return to == l.Header && l.Body[from] }
+	seg.Stop = func(from, to *ssa.BasicBlock) bool { return (to == l.Header && l.Body[from]) || (l.Body[from] && !l.Body[to]) }
 	seg.Explore()
+	// every frame of the goroutine gets its turn: a frame without arguments,
+	// or one whose declaration cannot be located, is skipped - it does not end
+	// the loop
+	if early := leftEarly(seg.Paths, l, nil); len(early) > 0 {
+		a.bad("AUG-name", "augmentGoroutine/all-frames", "the loop over the frames is left before the last frame ("+litsString(early[0])+"): the frames behind it stay unaugmented", pathPos(early[0], fn))
+	} else {
+		a.ok("AUG-name", "augmentGoroutine/all-frames", "the loop over the frames ends only after the last frame", fn.Pos())
+	}
 	n := 0
 	for _, p := range seg.Paths {
+		if !(p.Term == "stop" && p.End == l.Header) {
+			continue
+		}
 		calls := callEvents(p, isCallTo(stackPkg, "augmentCall"))
 		if len(calls) == 0 {
 			continue
